@@ -165,6 +165,7 @@ type vHook struct {
 	onFire  func()
 	mutOnly bool
 	pendingZk *faultSpec
+	extra     verifsim.MyHook // property-specific hook consulted first
 }
 
 func newHook(s *vSim, policy string) *vHook {
@@ -217,6 +218,11 @@ func (h *vHook) match(ch, stmt, at string, mut bool) *faultSpec {
 func (h *vHook) BeforeSQL(c *verifsim.SQLCall) verifsim.Decision {
 	if c.By == "" || c.By == "world" {
 		return verifsim.Decision{}
+	}
+	if h.extra != nil {
+		if d := h.extra.BeforeSQL(c); d.Err != nil || d.Hang || d.Drop || d.Delay > 0 {
+			return d
+		}
 	}
 	f := h.match("sql", c.Stmt, c.At, c.Mut)
 	if f == nil {
